@@ -363,17 +363,9 @@ fn run_fc(c: &FcCase) -> Vec<String> {
             lines.push(stop_line(e));
             return lines;
         }
-        let expect = match c.threads[i] {
-            Kind::Waiter => "fc:load_msgs",
-            _ => "fc:fetch_bytes",
-        };
-        if s.pos[i] != Pos::Gate(expect) {
-            lines.push(stop_line(Stop::Panic(format!(
-                "scheduler: thread {} first stopped at {:?}, expected {}",
-                i, s.pos[i], expect
-            ))));
-            return lines;
-        }
+        // Where a thread stops first is part of the observed trace (the model says: a waiter at fc:load_msgs,
+        // an inc / dec at fc:fetch_bytes); it is not enforced here, so that a change of the program order shows
+        // up as a disagreement with a full trace instead of stopping the case.
     }
 
     for &entry in &c.sched {
